@@ -74,6 +74,7 @@ func TestCheck(t *testing.T) {
 	r.Assume("beacon node model: duties of an epoch never change once served (reorg events do not change assignments); validators answers list exactly the requested cluster pubkeys; activation epochs are reported 4 epochs ahead")
 	r.Assume("'epoch resolved' = one resolveDuties run in which the scheduler received an intact validators answer and intact attester, proposer and sync answers for that epoch; no-loss is demanded only for slots ticked after that run (and until a handled reorg event drops the epoch again)")
 	r.Assume("a trigger of a validator that the chain model calls inactive is tolerated (and counted) when a validators answer given to the scheduler for that epoch listed it as active or activating")
+	r.Assume("no-loss and set-completeness are demanded for a validator only if a validators answer given to the scheduler for that epoch's resolution reported it active, or pending with an activation epoch <= the epoch and not exited; otherwise (cached answer predates the activation after missed first-slot ticks) it is counted as omitted_because_validators_answer_predates_activation, not judged")
 	r.Assume("the validator-cache refresh subscriber is a copy of the closure in app/app.go wireCoreWorkflow (not callable from outside)")
 	r.RacePkgs(false, "core/scheduler")
 	r.Require("triggers", 2000)
@@ -85,8 +86,8 @@ func TestCheck(t *testing.T) {
 	sink := &logSink{}
 	log.InitJSONForT(t, sink)
 
-	nA := r.N(2400, 45000)
-	nB := r.N(800, 15000)
+	nA := r.N(1500, 45000)
+	nB := r.N(500, 15000)
 	r.Cases(nA, 0, func(c *kit.Case) { runCase(c, c.Rng, "A:default-features", false) })
 	featureset.EnableForT(t, featureset.SSEReorgDuties)
 	r.Cases(nB, 0, func(c *kit.Case) { runCase(c, r.Rand(c.Idx, 15), "B:sse_reorg_duties", true) })
@@ -245,12 +246,12 @@ func runCase(c *kit.Case, rng *rand.Rand, phase string, reorgFeature bool) {
 			if ec := h.eventCount(); ec != lastEvents {
 				lastEvents, idleSince = ec, time.Now()
 			}
-			// A duty whose validators were never reported active to the scheduler cannot be pending inside
-			// it; the long silence is only required before blaming the scheduler itself.
+			// A duty whose validators were only reported as pending to the scheduler's active-validator filter
+			// cannot be pending inside it; the long silence is only required before blaming the trigger path.
 			need := idleForLoss
 			onlyStale := true
 			for _, d := range an.missing {
-				if plain, _, _ := an.classifyMissing(d); len(plain) > 0 {
+				if plain, _ := an.classifyMissing(d); len(plain) > 0 {
 					onlyStale = false
 				}
 			}
@@ -323,7 +324,7 @@ func runCase(c *kit.Case, rng *rand.Rand, phase string, reorgFeature bool) {
 			if !lossJudgeable {
 				break
 			}
-			plain, pendingPast, stale := an.classifyMissing(d)
+			plain, pendingPast := an.classifyMissing(d)
 			laterSame, delayed := false, false
 			for _, tr := range final.trigs {
 				if tr.Duty.Type == d.Duty.Type && tr.Duty.Slot > d.Duty.Slot {
@@ -344,17 +345,9 @@ func runCase(c *kit.Case, rng *rand.Rand, phase string, reorgFeature bool) {
 					seenSig[sig] = true
 					c.Violation(sig, fmt.Sprintf("duty %v (validators %v active, assigned, offered to the scheduler) was never delivered to both subscribers: %s", d.Duty, plain, ev), witness(data))
 				}
-			} else if len(pendingPast) > 0 {
-				if !seenSig[pendingPastSig] {
-					seenSig[pendingPastSig] = true
-					c.Violation(pendingPastSig, fmt.Sprintf("duty %v never delivered: validators %v are active and assigned; the validators answers the scheduler used listed them as pending with an activation epoch before the epoch being resolved, and the scheduler only accepts ActivationEpoch == epoch: %s", d.Duty, pendingPast, ev), witness(data))
-				}
-			} else {
-				sig := staleSig
-				if !seenSig[sig] {
-					seenSig[sig] = true
-					c.Violation(sig, fmt.Sprintf("duty %v never delivered: validators %v are active and assigned, but every validators answer given to the scheduler for that epoch was too old to list them as active: %s", d.Duty, stale, ev), witness(data))
-				}
+			} else if !seenSig[pendingPastSig] {
+				seenSig[pendingPastSig] = true
+				c.Violation(pendingPastSig, fmt.Sprintf("duty %v never delivered: validators %v are active and assigned; the validators answers the scheduler used listed them as pending with an activation epoch before the epoch being resolved (not exited), yet the scheduler left them out: %s", d.Duty, pendingPast, ev), witness(data))
 			}
 		}
 	}
